@@ -225,14 +225,38 @@ def _run_scene(desc, V):
     # draggable points: first-level multivectors (PGA d=3,4: only grade d-1 points)
     from kingdon.multivector import MultiVector
     d = alg.d
-    pts = [s for s in subjects if isinstance(s, MultiVector)]
+    # (a multivector with array-valued coefficients is a cloud of elements, expanded in the payload: not one draggable point)
+    pts = [s for s in subjects if isinstance(s, MultiVector) and len(s.shape) == 1]
     if alg.r == 1 and d in (3, 4):
         pts = [p for p in pts if p.grades == (d - 1,)]
     claims += _cmp_leaves('draggable', leaves(decode(g.draggable_points, k2i)), expected_leaves(pts, alg), 'scene|draggable_points')
     idxs = list(g.draggable_points_idxs)
-    want_idx = [j for j, s in enumerate(subjects) if any(s is p for p in pts)]
+
+    def n_top(s_):
+        """number of top-level entries a subject contributes to the decoded subjects list."""
+        while callable(s_) and not isinstance(s_, MultiVector):
+            s_ = s_()
+        if isinstance(s_, MultiVector) and len(s_.shape) > 1:
+            n = 1
+            for m in s_.shape[1:]:
+                n *= m
+            return n
+        return 1
+    want_idx, pos = [], 0
+    for s_ in subjects:
+        if any(s_ is p for p in pts):
+            want_idx.append(pos)
+        pos += n_top(s_)
     if idxs != want_idx:
         claims.append(Fail('draggable-idxs', f'{idxs} != {want_idx}', 'scene|draggable_points_idxs'))
+    # the front end (graph.js) reports moved points as draggable_points_idxs.map(i => canvas.value[i]), canvas.value being the
+    # DECODED top-level subjects list: on an untouched scene that report must be exactly the draggable points again
+    top = decode(g.subjects, k2i)
+    if any(i >= len(top) for i in idxs):
+        claims.append(Fail('frontend-report:index', f'draggable_points_idxs {idxs} exceed the {len(top)} decoded subjects', 'scene|frontend-indexing'))
+    else:
+        reported = [top[i] for i in idxs]
+        claims += _cmp_leaves('frontend-report', leaves(reported), leaves(decode(g.draggable_points, k2i)), 'scene|frontend-indexing')
     claims.append(Eq('reached', 1, 1))
     return claims
 
@@ -340,6 +364,14 @@ def _run_drag(desc, V):
     empty = MultiVector.fromkeysvalues(alg, (), [])
     dep = (lambda: pts[0] ^ pts[-1]) if rng.random() < 0.5 else (lambda: [~pts[0], pts[-1].hodge()])
     subjects = [0xff, pts[0], 'a']
+    cloud = None
+    if rng.random() < 0.5:
+        # a cloud (array-valued multivector, expanded element by element in the payload) BEFORE the draggable points,
+        # given directly or through a callable: positions in the decoded list and in the argument list then differ
+        import numpy as _np
+        ck = [k for k in order if bin(k).count('1') == (d - 1 if pga else 1)][:2]
+        cloud = alg.multivector(keys=tuple(ck), values=[_np.array([1.0 + i, 2.0 + i, 3.0 + i]) for i in range(len(ck))])
+        subjects.insert(rng.choice((0, 1)), cloud if rng.random() < 0.5 else (lambda: cloud))
     if rng.random() < 0.5 and not pga:
         subjects.append(empty)
     subjects += pts[1:] + [dep, [pts[0]]]
@@ -348,8 +380,25 @@ def _run_drag(desc, V):
     g = alg.graph(*subjects)
     k2i = dict(g.key2idx)
     idxs = list(g.draggable_points_idxs)
-    dragged = [subjects[j] for j in idxs]
+    # graph.js looks the points up in the DECODED subjects list (canvas.value[i]): owner of every top-level entry
+    owner = []
+    for s_ in subjects:
+        v = s_
+        while callable(v) and not isinstance(v, MultiVector):
+            v = v()
+        n = 1
+        if isinstance(v, MultiVector) and len(v.shape) > 1:
+            for m in v.shape[1:]:
+                n *= m
+        owner += [s_] * n
     claims = []
+    if any(i >= len(owner) for i in idxs) or any(not (isinstance(owner[i], MultiVector) and len(owner[i].shape) == 1) for i in idxs):
+        return [Fail('frontend-index', f'draggable_points_idxs {idxs} do not address single multivectors in the decoded subjects list', 'drag|frontend-indexing')]
+    dragged = [owner[i] for i in idxs]
+    want_pts = [p for p in pts if (not pga or True)]
+    if len(dragged) != len([s_ for s_ in subjects if isinstance(s_, MultiVector) and len(s_.shape) == 1 and (not pga or s_.grades == (d - 1,))]):
+        claims.append(Fail('frontend-index:count', f'{len(dragged)} draggable indices', 'drag|frontend-indexing'))
+    cloud_before = [list(map(float, v)) for v in cloud.values()] if cloud is not None else None
     fresh_slot = order.index(dragged[0].keys()[0]) if dragged and len(dragged[0].keys()) else -1
     for u in range(desc['updates']):
         payload, newvals = [], []
@@ -385,8 +434,10 @@ def _run_drag(desc, V):
                 claims.append(Eq(f'dragged[{u},{pi},{k}]', p.values()[j], newvals[pi][order.index(k)], 'drag|written-back'))
         claims += _cmp_leaves(f'subjects-after[{u}]', leaves(decode(g.subjects, k2i)), expected_leaves(subjects, alg), 'drag|subjects-reevaluated')
     # identity of the original objects and untouched non-draggables
-    if [subjects[j] for j in idxs] != dragged or any(a is not b for a, b in zip([subjects[j] for j in idxs], dragged)):
+    if any(a is not b for a, b in zip([owner[i] for i in idxs], dragged)):
         claims.append(Fail('identity', 'dragged subjects are no longer the original objects', 'drag|identity'))
+    if cloud is not None and [list(map(float, v)) for v in cloud.values()] != cloud_before:
+        claims.append(Fail('untouched-cloud', 'the coefficients of the array-valued subject changed although only points were moved', 'drag|untouched'))
     if tuple(empty.keys()) != () or tuple(other.keys()) != (0,):
         claims.append(Fail('untouched', 'a non-addressed multivector changed its keys', 'drag|untouched'))
     return claims
